@@ -108,6 +108,7 @@ PROPS = {
             rapid("c16", "TestPropRoundTrip", quick=(30000, 3), thorough=(400000, 8)),
             rapid("c16", "TestPropDecode", quick=(40000, 3), thorough=(500000, 8)),
             rapid("c16", "TestPropServerEntryPoints", quick=(3000, 2), thorough=(60000, 4)),
+            rapid("c16", "TestPropConcurrentCodec", quick=(60, 2), thorough=(1500, 6)),
             fuzz("c16", "FuzzUTF7", secs=90),
         ],
     },
